@@ -574,8 +574,8 @@ func genRTCase(rt *rapid.T, signerPool []int) rtCase {
 		SubjKT:     rapid.IntRange(0, nKeyTypes-1).Draw(rt, "subject"),
 		AlgVariant: rapid.IntRange(0, 3).Draw(rt, "algvariant"),
 		SelfSigned: rapid.IntRange(0, 3).Draw(rt, "self") == 0,
-		IssuerBC:   rapid.SampledFrom([]int{2, 2, 2, 2, 1, 0}).Draw(rt, "issuer-bc"),
-		IssuerKU:   rapid.SampledFrom([]int{0, 96, 96, 32, 1, 64, 479}).Draw(rt, "issuer-ku"),
+		IssuerBC:   rapid.SampledFrom([]int{2, 2, 2, 2, 2, 2, 1, 0}).Draw(rt, "issuer-bc"),
+		IssuerKU:   rapid.SampledFrom([]int{0, 96, 96, 32, 96, 33, 511, 1, 64, 479}).Draw(rt, "issuer-ku"),
 		IssuerSKI:  rapid.Bool().Draw(rt, "issuer-ski"),
 		ParentX509: rapid.Bool().Draw(rt, "parent-x509"),
 	}
